@@ -58,6 +58,10 @@ def execute(c):
     if c["source"] == "point":
         return execute_utm_point(c, ev)
     try:
+        if len(json.dumps(c)) % 2:
+            # history: a long-running process that has met many CRSs (all UTM zones) before this request
+            for z in range(1, 61):
+                CRS(f"epsg:{32600 + z}"), CRS(f"epsg:{32700 + z}")
         src = _source(c["source"])
         o = c["opts"]
         t = c["target"]
